@@ -35,3 +35,43 @@ CHECKS["C07"] = {
         "signature ids range over 8 bits (only compared for equality; 256 values exceed the history length)",
     ],
 }
+
+# ---------------------------------------------------------------------------------------------------------------
+# QBFT core (core/qbft): function-level obligations (B) on the real generic code instantiated at int64.
+_QB = "./core/qbft"
+_qbft_assumptions = [
+    "generic QBFT code instantiated at I=V=C=int64; production uses V=[32]byte; the bodies only apply ==, != and the zero value to V (parametricity)",
+    "message fields are byte-wide symbols (rounds 1..199, values 0..255): only compared, incremented and used as map keys",
+    "transport precondition P (valid type, 0<=source<n, round>=1, nesting depth <=1) is assumed here and checked in C05",
+    "leader election is the harness's round-robin (instance+round) mod n; the production formula is checked separately",
+    "logging callbacks are no-ops",
+]
+
+def _qbft_fn(n_list, jpp, classify):
+    g = [
+        {"pkg": _QB, "harness": "VerifQuorumArith", "params": {}},
+        {"pkg": _QB, "harness": "VerifJustRoundChange", "params": {"n": n_list}},
+        {"pkg": _QB, "harness": "VerifJustDecided", "params": {"n": n_list}},
+    ]
+    for n, j in jpp:
+        g.append({"pkg": _QB, "harness": "VerifJustPrePrepare", "params": {"n": n, "jmax": j}, "timeout_ms": 300000})
+    for c in classify:
+        g.append({"pkg": _QB, "harness": "VerifClassify", "params": c, "timeout_ms": 300000})
+    return g
+
+CHECKS["C02"] = {
+    "pkg": _QB,
+    "parallel": 5,
+    "quick": _qbft_fn([4], [(4, 6)], [{"n": 4, "m": 1, "jmax": 0, "typ": [2, 3, 4]}]),
+    "thorough": _qbft_fn([3, 4, 5, 6, 7], [(4, 6), (4, 7), (5, 8), (7, 10)],
+                         [{"n": 4, "m": 1, "jmax": 0, "typ": [1, 2, 3, 4, 5]}, {"n": 4, "m": 1, "jmax": 3, "typ": [2, 4]},
+                          {"n": 4, "m": 2, "jmax": 0, "typ": [2, 4]}, {"n": 5, "m": 1, "jmax": 0, "typ": [2, 3, 4]}]),
+    "bounds": {
+        "quick": "n=4 (Q=3,f=1); justification lists <= Q+1 (ROUND-CHANGE, DECIDED) / <= 6 (PRE-PREPARE); classify on a buffer of one message per source plus the received one, every field symbolic; Quorum/Faulty arithmetic n=1..32 concretely",
+        "thorough": "n in 3..7; PRE-PREPARE justifications up to 2Q; classify buffers with up to 2 messages per source or 3 nested justifications",
+    },
+    "outside": "whole-cluster agreement is not encoded as one product; it follows from the local obligations by the composition argument in DESIGN.md section 3 (model-level). Histories through the real Run loop are covered by the Run-level harness where registered. Rounds >= 200, longer justification lists.",
+    "assumptions": _qbft_assumptions,
+}
+CHECKS["C03"] = dict(CHECKS["C02"])
+CHECKS["C04"] = dict(CHECKS["C02"])
